@@ -1,4 +1,5 @@
 import Eav.Model
+import Eav.Cost
 /-!
 Line-protocol driver for the model (`lean_exe eavdrv`): reads the op file written by the C harness
 (ops + recorded IDN conversions), prints one canonical result line per op, in the same format
@@ -140,6 +141,11 @@ def handle (be : Backend) (b : Build) (toks : List String) : String :=
   | ["A", s, a] => "A " ++ showExceptBool (isIpaddr (unhex s) (unhex a))
   | ["S", s] => "S " ++ showExceptBool (isSpecialDomain (unhex s))
   | ["T", s] => "T " ++ showInt (isTld (unhex s))
+  -- work counters of `Eav/Cost.lean` (bytes examined), compared with measured instruction counts by C06
+  | ["c4", s, a] => "c4 " ++ toString (isIpv4T (unhex s) (unhex a)).2
+  | ["c6", s, a] => "c6 " ++ toString (isIpv6T (unhex s) (unhex a)).2
+  | ["cS", s] => "cS " ++ toString (specialTicks (unhex s))
+  | ["cT", s] => "cT " ++ toString (tldTicks Gen.tldTable (unhex s))
   | "U" :: t :: s :: rest =>
     let c := (parseConvs rest).head?.getD noConv
     match isUtf8Domain b (fun _ => c) (unhex s) (t == "1") with
